@@ -87,6 +87,14 @@ where
                   junk_complete!(),
                 ),
             );
+            if !sctl_next.is_subscribed() {
+              // ended by another thread while the timer was being armed: the finalizer may have
+              // run before the timer was stored, so cancel it here
+              let armed = timer.write().unwrap().take();
+              if let Some(armed) = armed {
+                armed.unsubscribe();
+              }
+            }
           }
         },
         move |_, e| {
